@@ -396,8 +396,10 @@ class CursorAwareWindow(BaseWindow, ContextManager["CursorAwareWindow"]):
         while True:
             self.in_get_cursor_diff = True
             self.another_sigwinch = False
-            cursor_dy += self._get_cursor_vertical_diff_once()
-            self.in_get_cursor_diff = False
+            try:
+                cursor_dy += self._get_cursor_vertical_diff_once()
+            finally:
+                self.in_get_cursor_diff = False
             if not self.another_sigwinch:
                 return cursor_dy
 
